@@ -45,6 +45,7 @@ theorem inv_step {s s' : St} {w : Who} (hinv : Inv s) (hstep : step s w = some s
       split at hstep
       · simp only [Option.some.injEq] at hstep; subst hstep; exact SInv_congr (s := s) rfl rfl rfl rfl hinv.sinv
       · simp at hstep
+    | cancel i => simp only [step, Option.some.injEq] at hstep; subst hstep; exact SInv_congr (s := s) rfl rfl rfl rfl hinv.sinv
   · cases w with
     | task i p =>
       simp only [step] at hstep
@@ -57,6 +58,7 @@ theorem inv_step {s s' : St} {w : Who} (hinv : Inv s) (hstep : step s w = some s
       split at hstep
       · simp only [Option.some.injEq] at hstep; subst hstep; exact CInv_congr (s := s) rfl rfl rfl rfl rfl rfl rfl hinv.cinv
       · simp at hstep
+    | cancel i => simp only [step, Option.some.injEq] at hstep; subst hstep; exact CInv_congr (s := s) rfl rfl rfl rfl rfl rfl rfl hinv.cinv
   · cases w with
     | task i p =>
       simp only [step] at hstep
@@ -78,6 +80,7 @@ theorem inv_step {s s' : St} {w : Who} (hinv : Inv s) (hstep : step s w = some s
       split at hstep
       · simp only [Option.some.injEq] at hstep; subst hstep; exact hinv.hand
       · simp at hstep
+    | cancel i => simp only [step, Option.some.injEq] at hstep; subst hstep; exact hinv.hand
 
 /-- `Close` has been called at most once so far, and if it was, nobody else is going to call it -/
 def ShutInv (s : St) : Prop := (s.ticker = true → sdSum s.tasks ≤ 1) ∧ (s.ticker = false → sdSum s.tasks = 0)
@@ -101,6 +104,7 @@ theorem shut_step {s s' : St} {w : Who} (hsh : ShutInv s) (hstep : step s w = so
       split at hstep
       · simp only [Option.some.injEq] at hstep; subst hstep; exact hsh
       · simp at hstep
+    | cancel i => simp only [step, Option.some.injEq] at hstep; subst hstep; exact hsh
 
 theorem shut_run {s : St} (ws : List Who) (hsh : ShutInv s) : ShutInv (run s ws) := by
   induction ws generalizing s with
@@ -169,6 +173,7 @@ theorem cfg_step {s s' : St} {w : Who} (hstep : step s w = some s') : s'.cfg = s
     split at hstep
     · simp only [Option.some.injEq] at hstep; subst hstep; rfl
     · simp at hstep
+  | cancel i => simp only [step, Option.some.injEq] at hstep; subst hstep; rfl
 
 theorem cfg_run (s : St) (ws : List Who) : (run s ws).cfg = s.cfg := by
   induction ws generalizing s with
